@@ -229,6 +229,7 @@ class WorkflowRecovery:
         Returns:
             RecoveryResult describing what happened
         """
+        from stabilize.models.stage import SyntheticStageOwner
         from stabilize.queue.messages import (
             RunTask,
             StartStage,
@@ -341,6 +342,16 @@ class WorkflowRecovery:
                             )
                         )
                 elif not_started_tasks and stage.start_time is not None:
+                    # While before-stages are unfinished the parent's tasks must not
+                    # start: the children are re-queued on their own and their
+                    # completion continues the parent (ContinueParentStage).
+                    if any(
+                        s.parent_stage_id == stage.id
+                        and s.synthetic_stage_owner == SyntheticStageOwner.STAGE_BEFORE
+                        and not s.status.is_complete
+                        for s in full_workflow.stages
+                    ):
+                        continue
                     first_task = not_started_tasks[0]
                     # Mirror the running-task guard: skip if a message for this
                     # task is already queued, so a recovery sweep overlapping
